@@ -50,10 +50,26 @@ type callWorld struct {
 	rec    *z.StructSchema
 	list   *z.SliceSchema
 	ptr    *z.PointerSchema
+	custom *z.Custom[string]     // a custom schema with its own code, message and params
+	withC  *z.StructSchema       // struct with a custom field next to a tested primitive field
+	listC  *z.SliceSchema        // slice of custom elements
+	opted  *z.StringSchema[string] // a test carrying every option (path, code, message, params)
+	objects []*callObj           // the shared schema objects, with the deep snapshot taken right after construction
 	kinds  []*callKind
 	byName map[string]*callKind
 	held   []*callHeld
 	x      *mc.X
+}
+
+type callObj struct {
+	name string
+	obj  any
+	snap string
+}
+
+type callWithCustom struct {
+	Id   string
+	Name string
 }
 
 type callHeld struct {
@@ -190,6 +206,21 @@ func newCallWorld(x *mc.X) *callWorld {
 	})
 	w.list = z.Slice(z.String().Min(2))
 	w.ptr = z.Ptr(z.Int().GT(5))
+	w.custom = z.CustomFunc(func(p *string, c z.Ctx) bool { return len(*p) == 4 }, z.IssueCode("bad_id"), z.Message("invalid id"), z.Params(map[string]any{"len": 4}))
+	w.withC = z.Struct(z.Schema{"id": w.custom, "name": z.String().Min(3)})
+	w.listC = z.Slice(z.CustomFunc(func(p *string, c z.Ctx) bool { return len(*p) == 4 }, z.IssueCode("bad_el"), z.Message("invalid element")))
+	w.opted = z.String().Min(1, z.IssuePath("alias"), z.IssueCode("opt_min"), z.Message("own message"), z.Params(map[string]any{"own": true})).PostTransform(func(p any, c z.Ctx) error {
+		if *(p.(*string)) == "boom" {
+			return fmt.Errorf("transform failed")
+		}
+		return nil
+	})
+	for _, o := range []struct {
+		n string
+		v any
+	}{{"String schema", w.str}, {"Int schema", w.num}, {"record schema", w.rec}, {"Slice schema", w.list}, {"Ptr schema", w.ptr}, {"Custom schema", w.custom}, {"Struct with a Custom field", w.withC}, {"Slice of Custom", w.listC}, {"String schema with an optioned test", w.opted}} {
+		w.objects = append(w.objects, &callObj{name: o.n, obj: o.v, snap: zh.CanonStringHidden(o.v)})
+	}
 	add := func(k *callKind) {
 		w.kinds = append(w.kinds, k)
 		w.byName[k.name] = k
@@ -243,6 +274,43 @@ func newCallWorld(x *mc.X) *callWorld {
 	add(&callKind{name: "Ptr.Parse/failing", class: "pointer", run: func(w *callWorld) (any, any) {
 		var d *int
 		return w.ptr.Parse(1, &d), &d
+	}})
+	// custom schemas: alone, as a struct field next to a tested field, as slice elements
+	for _, in := range []struct{ n, v string }{{"ok", "abcd"}, {"failing", "ab"}} {
+		in := in
+		add(&callKind{name: "Custom.Parse/" + in.n, class: "custom", run: func(w *callWorld) (any, any) {
+			var d string
+			return w.custom.Parse(in.v, &d), &d
+		}})
+		add(&callKind{name: "Struct{custom,tested}.Parse/custom " + in.n, class: "custom-nested", run: func(w *callWorld) (any, any) {
+			var d callWithCustom
+			return w.withC.Parse(map[string]any{"id": in.v, "name": "x"}, &d), &d
+		}})
+		add(&callKind{name: "Struct{custom,tested}.Validate/custom " + in.n, class: "custom-nested", run: func(w *callWorld) (any, any) {
+			d := callWithCustom{Id: in.v, Name: "alice"}
+			return w.withC.Validate(&d), &d
+		}})
+		add(&callKind{name: "Slice(custom).Parse/second " + in.n, class: "custom-nested", run: func(w *callWorld) (any, any) {
+			var d []string
+			return w.listC.Parse([]any{"abcd", in.v}, &d), &d
+		}})
+	}
+	// a test carrying every option, followed on the same node by a failing / passing PostTransform
+	for _, in := range []struct{ n, v string }{{"test fails", ""}, {"test passes, transform fails", "boom"}, {"all ok", "fine"}} {
+		in := in
+		add(&callKind{name: "String(optioned test).Validate/" + in.n, class: "optioned", run: func(w *callWorld) (any, any) {
+			d := in.v
+			return w.opted.Validate(&d), &d
+		}})
+	}
+	add(&callKind{name: "String(optioned test).Parse/all ok", class: "optioned", run: func(w *callWorld) (any, any) {
+		var d string
+		return w.opted.Parse("fine", &d), &d
+	}})
+	add(&callKind{name: "Struct.PostTransform(fails).Parse [no test of its own]", class: "optioned", run: func(w *callWorld) (any, any) {
+		s := z.Struct(z.Schema{"a": z.String()}).PostTransform(func(p any, c z.Ctx) error { return fmt.Errorf("record transform failed") })
+		var d callOuter
+		return s.Parse(map[string]any{"a": "x"}, &d), &d
 	}})
 	// the record through four front ends
 	docs := callRecDocs()
@@ -476,6 +544,18 @@ func callsScenario(cfg callsCfg, first int) mc.Scenario {
 			if len(out.Viol) > 0 || !checkHeld() {
 				break
 			}
+			changed := false
+			for _, o := range w.objects {
+				out.Traces++
+				if now := zh.CanonStringHidden(o.obj); now != o.snap {
+					report("schema-modified", k.class, "a schema object ("+o.name+") reads differently after call "+k.name, o.snap, now)
+					changed = true
+					break
+				}
+			}
+			if changed {
+				break
+			}
 		}
 		zh.Reset()
 		out.Sig = strings.Join(hist, ">")
@@ -534,6 +614,6 @@ func callsItemsFiltered(tier, prop string, keep func(class string) bool, accept 
 	return items
 }
 
-const callsRule = "call sequences: every sequence of ≤L calls over a closed alphabet of call kinds (String/Int/Slice/Ptr Parse and Validate, passing and failing; one record schema parsed from 6 documents as Go map, zjson and zhttp JSON body, from null and malformed documents, from 3 query strings, and validated; and re-entrant calls in which a field test, struct test, primitive test, slice-element test, PostTransform or Preprocess function of an outer execution runs one of 7 inner executions to completion, under both field visit orders), all calls of a sequence sharing their schema objects, object pools answering most-recently-released-first with ≤d other answers; oracle: each call's complete observation (every issue field, destination) equals the same call made first in a fresh process state, nested executions equal the same execution run alone, and every result returned earlier still reads as it did when returned"
+const callsRule = "call sequences: every sequence of ≤L calls over a closed alphabet of call kinds (String/Int/Slice/Ptr Parse and Validate, passing and failing; a Custom schema alone, as a struct field next to a tested field and as slice elements; a test carrying every option followed by a PostTransform; one record schema parsed from 6 documents as Go map, zjson and zhttp JSON body, from null and malformed documents, from 3 query strings, and validated; and re-entrant calls in which a field test, struct test, primitive test, slice-element test, PostTransform or Preprocess function of an outer execution runs one of 7 inner executions to completion, under both field visit orders), all calls of a sequence sharing their schema objects, object pools answering most-recently-released-first with ≤d other answers; oracle: each call's complete observation (every issue field, destination) equals the same call made first in a fresh process state, nested executions equal the same execution run alone, every result returned earlier still reads as it did when returned, and every shared schema object (all fields at any depth) reads as it did right after construction"
 
 var _ = reflect.TypeOf
